@@ -17,30 +17,7 @@ typedef ARGT__ZN5gdstk22oasis_write_point_listERNS_11OasisStreamERNS_5ArrayINS_7
 #define R 7
 #endif
 #define BUF 64
-static int bad;                     /* the emitted list is not well formed */
-#ifdef REAL
-/* byte-level codecs of the specification (7.2 unsigned, 7.2.2 signed, 7.5 deltas), used only when the real writer produced bytes */
-static uint8_t* rp; static uint8_t* rend;
-static uint64_t rd_u(void) { uint64_t v = 0; int sh = 0; for (;;) { if (rp >= rend) { bad = 1; return 0; } uint8_t b = *rp++; v |= (uint64_t)(b & 0x7f) << sh; sh += 7; if (!(b & 0x80)) return v; } }
-static uint8_t nx_byte(void) { if (rp >= rend) { bad = 1; return 0; } return *rp++; }
-static uint64_t nx_uint(void) { return rd_u(); }
-static int64_t nx_int(void) { uint64_t u = rd_u(); int64_t m = (int64_t)(u >> 1); return (u & 1) ? -m : m; }
-static void nx_2d(int64_t* x, int64_t* y) { uint64_t u = rd_u(); int64_t m = (int64_t)(u >> 2); *x = *y = 0; switch (u & 3) { case 0: *x = m; break; case 1: *y = m; break; case 2: *x = -m; break; default: *y = -m; } }
-static void oct(uint64_t dir, int64_t m, int64_t* x, int64_t* y) { static const int dx[8] = {1, 0, -1, 0, 1, -1, -1, 1}, dy[8] = {0, 1, 0, -1, 1, 1, -1, -1}; *x = dx[dir] * m; *y = dy[dir] * m; }
-static void nx_3d(int64_t* x, int64_t* y) { uint64_t u = rd_u(); oct(u & 7, (int64_t)(u >> 3), x, y); }
-static void nx_gd(int64_t* x, int64_t* y) { uint64_t u = rd_u(); if (!(u & 1)) { oct((u >> 1) & 7, (int64_t)(u >> 4), x, y); return; }
-  int64_t m = (int64_t)(u >> 2); *x = (u & 2) ? -m : m; uint64_t w = rd_u(); m = (int64_t)(w >> 1); *y = (w & 1) ? -m : m; }
-static int nx_done(void) { return rp == rend; }
-#else
-static struct oas_tok nx(uint8_t kind) { struct oas_tok t = {0, 0, 0}; if (tok_k >= tok_n) { bad = 1; return t; } t = TOK[tok_k++]; if (t.kind != kind) bad = 1; return t; }
-static uint8_t nx_byte(void) { return (uint8_t)nx(K_BYTE).a; }
-static uint64_t nx_uint(void) { return nx(K_UINT).a; }
-static int64_t nx_int(void) { return (int64_t)nx(K_INT).a; }
-static void nx_2d(int64_t* x, int64_t* y) { struct oas_tok t = nx(K_2D); *x = (int64_t)t.a; *y = (int64_t)t.b; if (*x != 0 && *y != 0) bad = 1; }
-static void nx_3d(int64_t* x, int64_t* y) { struct oas_tok t = nx(K_3D); *x = (int64_t)t.a; *y = (int64_t)t.b; if (*x != 0 && *y != 0 && *x != *y && *x != -*y) bad = 1; }
-static void nx_gd(int64_t* x, int64_t* y) { struct oas_tok t = nx(K_GD); *x = (int64_t)t.a; *y = (int64_t)t.b; }
-static int nx_done(void) { return tok_k == tok_n; }
-#endif
+#include "oas_ref_tok.h"
 int main(void) {
   uint8_t* buf = malloc(BUF); memset(buf, 0xA5, BUF);
   int64_t px[N], py[N];
